@@ -69,6 +69,10 @@ impl<T> Update<&T> {
 }
 
 impl<T: Value> Observer<T> {
+    #[cfg(cormacrelf_incremental_rs_verif)]
+    pub(crate) fn verif_raw_id(&self) -> usize {
+        self.internal.id().verif_raw()
+    }
     #[inline]
     pub(crate) fn new(internal: Rc<InternalObserver<T>>) -> Self {
         Self {
